@@ -13,6 +13,8 @@ run(res, seed, tier) -> stats
         T ret ... 0   a returned block is not accessible according to the shim ledger   -> impl:inaccessible
         T bit ...     an arena committed bit / a commit-mask bit over an inaccessible slice -> impl:committed-bit
         T orphan ...  an in-use arena block that belongs to no segment (leaked)          -> impl:orphan-block
+        T unused ...  a live segment that has no page after the API call returned (no later
+                      operation frees it: Coq C07_no_unused_segment)                       -> impl:unused-segment
         T crash ...   a signal inside the allocator or when touching a returned block    -> impl:crash
   (b) the extracted Coq model (ocaml mode "commit"): commit_inv_b on every dumped real state, and the exact model
       transition for every API call under the oracle answers read from the shim log
@@ -113,6 +115,9 @@ def run(res, seed, tier, nseeds=None, nops=None):
                            else ("segment at slice %s has a commit-mask bit (or is huge) over slice %s which is not accessible" % (f[4], f[5])))
                 elif kind == "orphan":
                     bad = ("impl:orphan-block", "arena block %s is in use but belongs to no segment" % f[3])
+                elif kind == "unused":
+                    bad = ("impl:unused-segment", "the segment at slice %s (arena block %s) is owned without a single page (segment->used = %s) after the call returned: "
+                           "no later operation frees it (mi_collect reaches segments through their pages); model: C07_no_unused_segment" % (f[3], f[4], f[5]))
                 elif kind == "crash":
                     bad = ("impl:crash", "signal %s during API call %s" % (f[3], f[2]))
                 if bad and bad[0] not in seen:
